@@ -32,6 +32,7 @@ type provCtx struct {
 	maxNodes int
 	nodes    int
 	chain    []string
+	sliced   int // > 0 while walking the operand of a slice expression
 	// sanitize says whether a (value, use) hop is validated; nil = default validators
 	trustField func(f *types.Var) (Leaf, bool)
 }
@@ -123,7 +124,10 @@ func (pc *provCtx) walk(v ssa.Value, use ssa.Instruction, part string, depth int
 			pc.leaf("unknown", "binop "+x.Op.String(), x.Pos())
 		}
 	case *ssa.Slice:
+		// a piece of a string: only a validator that checks every character (no query part) covers it
+		pc.sliced++
 		pc.walk(x.X, x, part, depth+1)
+		pc.sliced--
 	case *ssa.ChangeType:
 		pc.walk(x.X, x, part, depth+1)
 	case *ssa.Convert:
@@ -654,6 +658,11 @@ func (pc *provCtx) validatedAt(v ssa.Value, use ssa.Instruction) bool {
 	}
 	for _, vc := range pc.validatorCalls(fn) {
 		arg := vc.Call.Args[0]
+		if pc.sliced > 0 && len(vc.Call.Args) == 2 {
+			if b, isC := constBool(vc.Call.Args[1]); !isC || b {
+				continue // IsValidRID(x, true) stops at '?': says nothing about a slice of x
+			}
+		}
 		same := arg == v
 		if !same {
 			// both loads of the same cell with no store in between (cells assigned before the check)
